@@ -106,40 +106,51 @@ static bool all_subsets_agree(const std::vector<size_t> &holders, const std::map
 
 // ------------------------------------------------------------------------------------------------ scenario description
 struct Scn {
-	std::string kind;            // vss | dkg | cgjkr | vssx (scripted)
+	std::string kind;            // vss | dkg | cgjkr | pure
 	size_t n, t; std::set<size_t> faulty, faulty2;    // faulty2: faulty during the refresh (cgjkr)
 	unsigned qbits, pbits; int variant; uint64_t id;
+	// harness-scripted deviations (the faulty parties run the library code without its switches, over a tampering channel)
+	std::map<size_t, Script> scripts; std::string xname; bool builtin = true; bool may_silent = false; bool silent_sharing = false;   // silent_sharing: withholds messages already in the sharing phase
+	long dealer_only = -1;       // vss: only this party deals
+	long expect_dq = -1, expect_kept = -1;     // party that all honest parties must disqualify / must keep
 	std::string name() const {
 		std::ostringstream o; o << kind << "/n" << n << "t" << t << "/F" << setstr(faulty);
 		if (kind == "cgjkr") o << "/R" << setstr(faulty2);
-		o << "/v" << variant << "/q" << qbits; return o.str();
+		o << "/v" << variant << "/q" << qbits; if (!xname.empty()) o << "/X" << xname; return o.str();
 	}
+	bool corrupted(size_t i) const { return builtin && faulty.count(i) > 0; }
 };
 static uint64_t SEED = 1;
 static bool SUSPECT = false;      // some honest party failed to receive something from an honest party: synchrony assumption violated in this run
 // child side: lines of a protocol log that report a failed reception from / complaint against an honest party
-static void report_suspects(Party &P, const Scn &S, const std::string &log) {
-	std::istringstream is(log); std::string l; int cnt = 0;
+// A suspicious line that precedes the party's qualification decision (its first "QUAL = {" log line; for PedersenVSS the whole
+// Share log) is reported as SUSPECT-PRE, a later one as SUSPECT-POST: a disagreement on the qualified set that was computed
+// without any earlier suspicious event is conclusive even if the parties lose synchrony afterwards (as a consequence of it).
+static void report_suspects(Party &P, const Scn &S, const std::string &log, bool all_post = false) {
+	std::istringstream is(log); std::string l; int cnt = 0; bool decided = all_post;
 	while (std::getline(is, l)) {
+		if (l.find("QUAL = {") != std::string::npos) { decided = true; continue; }
 		bool rx_failed = l.find("failed") != std::string::npos && l.find("receiving") != std::string::npos;
 		if (!rx_failed && l.find("no share received") == std::string::npos && l.find("no shares received") == std::string::npos) continue;
 		size_t pos = l.rfind("P_"); if (pos == std::string::npos) continue;
 		size_t j = strtoul(l.c_str() + pos + 2, 0, 10);
 		// PedersenVSS's built-in deviations never withhold a message; the DKG ones may (a faulty party leaves the protocol)
-		bool may_be_silent = S.kind != "vss" && (S.faulty.count(j) || S.faulty2.count(j));
-		if (j < S.n && !may_be_silent && cnt++ < 3) P.say("SUSPECT " + l);
+		bool may_be_silent = (decided ? S.may_silent : S.silent_sharing) && (S.faulty.count(j) || S.faulty2.count(j));
+		if (j < S.n && !may_be_silent && cnt++ < 6) P.say(std::string(decided ? "SUSPECT-POST " : "SUSPECT-PRE ") + l);
 	}
 }
+static bool PRE_SUSPECT = false, CONCLUSIVE = false;
 static const Scn *CUR = 0;
 static void collect_suspects(const RunResult &rr, const std::vector<size_t> &H) {
 	for (size_t i : H) for (const std::string &l : rr.lines[i]) {
-		if (l.compare(0, 8, "SUSPECT ") == 0) SUSPECT = true;
+		if (l.compare(0, 7, "SUSPECT") == 0) SUSPECT = true;
+		if (l.compare(0, 12, "SUSPECT-PRE ") == 0) PRE_SUSPECT = true;
 		// time-outs reported by the channel layers themselves: "RBC(j): timeout delivering from X", "aiounicast_select(j): timeout for X"
 		if ((l.compare(0, 4, "RBC(") == 0 || l.compare(0, 18, "aiounicast_select(") == 0) && l.find("timeout") != std::string::npos) {
 			size_t e = l.find_last_of("0123456789"); if (e == std::string::npos) { SUSPECT = true; continue; }
 			size_t b = e; while (b > 0 && isdigit((unsigned char)l[b - 1])) b--;
 			size_t x = strtoul(l.substr(b, e - b + 1).c_str(), 0, 10);
-			bool may_be_silent = CUR && CUR->kind != "vss" && (CUR->faulty.count(x) || CUR->faulty2.count(x));
+			bool may_be_silent = CUR && CUR->may_silent && (CUR->faulty.count(x) || CUR->faulty2.count(x));
 			if (!may_be_silent) SUSPECT = true;
 		}
 	}
@@ -149,11 +160,12 @@ static void collect_suspects(const RunResult &rr, const std::vector<size_t> &H) 
 // ================================================================================================ PedersenVSS
 // child: like t-vss.cc - one PedersenVSS object, every party deals once, each sharing is followed by Reconstruct
 static void vss_role(Party &P, const Group &G, const Scn &S, const std::vector<Z> &secrets) {
-	bool corrupted = S.faulty.count(P.me) > 0;
+	bool corrupted = S.corrupted(P.me);
 	PedersenVSS *vss = new PedersenVSS(P.n, S.t, P.me, G.p.v, G.q.v, G.g.v, G.h.v, G.pbits, G.qbits, false);
 	if (S.variant == 1 && !vss->CheckGroup()) P.say("CHECKGROUP 0");
 	mpz_t sigma; mpz_init(sigma);
 	for (size_t d = 0; d < P.n; d++) {
+		if (S.dealer_only >= 0 && (long)d != S.dealer_only) continue;
 		std::stringstream err, err2; bool ret;
 		if (d == P.me) {
 			mpz_set(sigma, secrets[d].v);
@@ -170,7 +182,7 @@ static void vss_role(Party &P, const Group &G, const Scn &S, const std::vector<Z
 		P.say(o.str());
 		mpz_set_ui(sigma, 42L);
 		bool rret = vss->Reconstruct(d, sigma, P.rbc, err2);
-		report_suspects(P, S, err2.str());
+		report_suspects(P, S, err2.str(), true);
 		std::ostringstream o2; o2 << "RCN " << d << " " << (rret ? 1 : 0) << " " << hx(sigma);
 		P.say(o2.str());
 	}
@@ -188,7 +200,7 @@ static void vss_scenario(const Scn &S, time_t T) {
 	}
 	std::vector<Role> roles;
 	for (size_t i = 0; i < n; i++) roles.push_back([&](Party &P) { vss_role(P, G, S, secrets); });
-	RunResult rr = run_parties(n, t, roles, T, 40.0 + 12.0 * T, SEED * 7777 + S.id);
+	RunResult rr = run_parties(n, t, roles, T, 40.0 + 12.0 * T, SEED * 7777 + S.id, &S.scripts, G.q.v);
 	std::string sn = S.name();
 	std::vector<size_t> H; for (size_t i = 0; i < n; i++) if (!S.faulty.count(i)) H.push_back(i);
 	collect_suspects(rr, H);
@@ -196,6 +208,7 @@ static void vss_scenario(const Scn &S, time_t T) {
 		std::string last = rr.lines[i].empty() ? "" : rr.lines[i].back();
 		fail("vss.party-died", sn + " honest party " + std::to_string(i) + " did not finish (status " + std::to_string(rr.status[i]) + ") " + last); return; }
 	for (size_t d = 0; d < n; d++) {
+		if (S.dealer_only >= 0 && (long)d != S.dealer_only) continue;
 		std::string ds = std::to_string(d), ctx = sn + " dealer=" + ds + (S.faulty.count(d) ? "(faulty)" : "(honest)");
 		std::map<size_t, std::vector<std::string> > V, RC; bool parse_ok = true;
 		for (size_t i = 0; i < n; i++) { if (!find_line(rr.lines[i], "VSS", ds, V[i]) || V[i].size() < 6) { if (!S.faulty.count(i)) parse_ok = false; V.erase(i); }
@@ -208,10 +221,14 @@ static void vss_scenario(const Scn &S, time_t T) {
 		// (1) an honest dealer is accepted by everybody
 		bool any_true = false, any_false = false; std::string rets;
 		for (size_t i : H) { bool r = V[i][0] == "1"; (r ? any_true : any_false) = true; rets += " P" + std::to_string(i) + "=" + V[i][0] + (V[i][3] == "1" ? "c" : ""); }
+		if (!PRE_SUSPECT && ((S.expect_dq == (long)d && any_true) || (S.expect_kept == (long)d && any_false))) CONCLUSIVE = true;
+		if (S.expect_dq == (long)d && any_true) { fail("vss.scripted-dealer-not-disqualified", ctx + " more than t justified complaints, but accepted by:" + rets); continue; }
+		if (S.expect_kept == (long)d && any_false) { fail("vss.scripted-dealer-rejected", ctx + " at most t complaints, all answered correctly, but rejected by:" + rets); continue; }
 		if (dh && any_false) { fail("vss.honest-dealer-rejected", ctx + " return values:" + rets); continue; }
 		// (2) agreement on the dealer's qualification
 		if (any_true && any_false) {
 			bool compl_involved = false; for (size_t i : Rv) if (V[i][3] == "1") compl_involved = true;
+			if (!PRE_SUSPECT) CONCLUSIVE = true;
 			fail(compl_involved ? "vss.qualification-disagree-after-complaint" : "vss.qualification-disagree", ctx + " honest parties disagree whether the dealer is qualified:" + rets + " (c = complained)");
 			continue;
 		}
@@ -225,13 +242,15 @@ static void vss_scenario(const Scn &S, time_t T) {
 		if (dh && !a.empty() && G.qbits <= 64) {
 			bool all = true; for (size_t j = 0; j < n; j++) if (j != d && (!V.count(j) || V[j].size() < 7)) all = false;
 			std::string res; size_t ncomp = 0;
-			for (size_t j = 0; all && j < n; j++) if (j != d && (V[j][3] == "1" || V[j][6] == "1")) { ncomp++;
+			auto injects = [&](size_t j) { return S.scripts.count(j) && S.scripts.at(j).inject_value == (long)d; };
+			for (size_t j = 0; all && j < n; j++) if (j != d && (V[j][3] == "1" || V[j][6] == "1" || injects(j))) { ncomp++;
 				res += (res.empty() ? "" : ",") + hx(j) + "," + poly(a, j + 1, G.q).h() + "," + poly(b, j + 1, G.q).h(); }
 			if (ncomp > t) res.clear();                       // the dealer gives up without publishing anything
 			for (size_t i : Rv) if (all && V[i][5] == "0") {
 				std::string st;
 				for (size_t j = 0; j < n; j++) if (j != d && j != i) {
 					st += (st.empty() ? "" : ";") + hx(j) + ":";
+					if (injects(j)) st += hx(d) + ".";
 					if (V[j][3] == "1") st += hx(d) + "."; if (V[j][6] == "1") st += hx(d) + ".";
 					st += hx(n); }
 				R("vss_recv").z(G.p).z(G.q).z(G.g).z(G.h).u(n).u(t).u(i).u(d).t(join(A)).t(V[i][1]).t(V[i][2]).t(st.empty() ? "_" : st).t(res.empty() ? "_" : res)
@@ -285,7 +304,7 @@ static std::string qualstr(const std::vector<size_t> &Q) { if (Q.empty()) return
 static std::vector<size_t> qualparse(const std::string &s) { std::vector<size_t> r; if (s == "_") return r; std::istringstream is(s); std::string x; while (std::getline(is, x, ',')) r.push_back(strtoul(x.c_str(), 0, 10)); return r; }
 
 static void dkg_role(Party &P, const Group &G, const Scn &S) {
-	bool corrupted = S.faulty.count(P.me) > 0;
+	bool corrupted = S.corrupted(P.me);
 	GennaroJareckiKrawczykRabinDKG *dkg = new GennaroJareckiKrawczykRabinDKG(P.n, S.t, P.me, G.p.v, G.q.v, G.g.v, G.h.v, G.pbits, G.qbits, S.variant == 1, false);
 	if (S.variant == 1 && !dkg->CheckGroup()) P.say("CHECKGROUP 0");
 	std::stringstream err;
@@ -344,7 +363,7 @@ static void dkg_scenario(const Scn &S, time_t T) {
 	Group G = make_group(S.qbits, S.pbits, S.variant == 1);
 	size_t n = S.n, t = S.t;
 	std::vector<Role> roles; for (size_t i = 0; i < n; i++) roles.push_back([&](Party &P) { dkg_role(P, G, S); });
-	RunResult rr = run_parties(n, t, roles, T, 40.0 + 14.0 * T, SEED * 7777 + S.id);
+	RunResult rr = run_parties(n, t, roles, T, 40.0 + 14.0 * T, SEED * 7777 + S.id, &S.scripts, G.q.v);
 	std::string sn = S.name();
 	std::vector<size_t> H; for (size_t i = 0; i < n; i++) if (!S.faulty.count(i)) H.push_back(i);
 	collect_suspects(rr, H);
@@ -357,9 +376,20 @@ static void dkg_scenario(const Scn &S, time_t T) {
 		for (size_t j = 0; j < n; j++) k.C.push_back(split(C[j]));
 	}
 	if (getenv("C15_DEBUG")) for (size_t i = 0; i < n; i++) for (auto &l : rr.lines[i]) fprintf(stderr, "[%s P%zu] %s\n", sn.c_str(), i, l.c_str());
+	if (!PRE_SUSPECT) {            // the qualified sets were computed before anything suspicious happened: compare them as they are
+		for (size_t i : H) if (K[i].QUAL != K[H[0]].QUAL) {
+			CONCLUSIVE = true;
+			fail("dkg.qual-disagree", sn + " (decided in a synchronous sharing phase) P" + std::to_string(H[0]) + ": " + qualstr(K[H[0]].QUAL) + " P" + std::to_string(i) + ": " + qualstr(K[i].QUAL));
+			return; }
+		const std::vector<size_t> &Q0 = K[H[0]].QUAL;
+		if (S.expect_dq >= 0 && std::find(Q0.begin(), Q0.end(), (size_t)S.expect_dq) != Q0.end()) { CONCLUSIVE = true; fail("dkg.scripted-dealer-not-disqualified", sn + " P" + std::to_string(S.expect_dq) + " got more than t justified complaints but is in QUAL " + qualstr(Q0)); return; }
+		if (S.expect_kept >= 0 && std::find(Q0.begin(), Q0.end(), (size_t)S.expect_kept) == Q0.end()) { CONCLUSIVE = true; fail("dkg.scripted-dealer-disqualified", sn + " P" + std::to_string(S.expect_kept) + " got at most t complaints and answered them correctly but is not in QUAL " + qualstr(Q0)); return; }
+	}
 	Z secret;
 	if (!key_oracle("dkg", sn, G, t, H, K, secret)) return;
 	const std::vector<size_t> &Q = K[H[0]].QUAL;
+	if (S.expect_dq >= 0 && std::find(Q.begin(), Q.end(), (size_t)S.expect_dq) != Q.end()) fail("dkg.scripted-dealer-not-disqualified", sn + " P" + std::to_string(S.expect_dq) + " got more than t justified complaints but is in QUAL " + qualstr(Q));
+	if (S.expect_kept >= 0 && std::find(Q.begin(), Q.end(), (size_t)S.expect_kept) == Q.end()) fail("dkg.scripted-dealer-disqualified", sn + " P" + std::to_string(S.expect_kept) + " got at most t complaints and answered them correctly but is not in QUAL " + qualstr(Q));
 	// verification keys: agreement, g^x_i = v_i, CheckKey
 	for (size_t i : H) {
 		std::vector<Z> v = split(D[i][5]), v0 = split(D[H[0]][5]);
@@ -383,7 +413,7 @@ static void cg_say(Party &P, const char *tag, bool ret, CanettiGennaroJareckiKra
 	P.say(cl);
 }
 static void cgjkr_role(Party &P, const Group &G, const Scn &S) {
-	bool c1 = S.faulty.count(P.me) > 0, c2 = S.faulty2.count(P.me) > 0;
+	bool c1 = S.builtin && S.faulty.count(P.me) > 0, c2 = S.builtin && S.faulty2.count(P.me) > 0;
 	CanettiGennaroJareckiKrawczykRabinDKG *dkg = new CanettiGennaroJareckiKrawczykRabinDKG(P.n, S.t, P.me, G.p.v, G.q.v, G.g.v, G.h.v, G.pbits, G.qbits, false, false);
 	std::stringstream err, err2;
 	bool ret = dkg->Generate(P.aiou, P.rbc, err, c1);
@@ -407,7 +437,7 @@ static void cgjkr_scenario(const Scn &S, time_t T) {
 	Group G = make_group(S.qbits, S.pbits, false);
 	size_t n = S.n, t = S.t;
 	std::vector<Role> roles; for (size_t i = 0; i < n; i++) roles.push_back([&](Party &P) { cgjkr_role(P, G, S); });
-	RunResult rr = run_parties(n, t, roles, T, 60.0 + 30.0 * T, SEED * 7777 + S.id);
+	RunResult rr = run_parties(n, t, roles, T, 60.0 + 30.0 * T, SEED * 7777 + S.id, &S.scripts, G.q.v);
 	std::string sn = S.name();
 	if (getenv("C15_DEBUG")) for (size_t i = 0; i < n; i++) for (auto &l : rr.lines[i]) fprintf(stderr, "[%s P%zu] %s\n", sn.c_str(), i, l.c_str());
 	std::vector<size_t> H; for (size_t i = 0; i < n; i++) if (!S.faulty.count(i) && !S.faulty2.count(i)) H.push_back(i);
@@ -415,9 +445,15 @@ static void cgjkr_scenario(const Scn &S, time_t T) {
 	std::map<size_t, KeyView> K1, K2;
 	for (size_t i : H) if (rr.status[i] != 0 || !cg_parse(rr, i, n, "GEN", K1[i]) || !cg_parse(rr, i, n, "REF", K2[i])) {
 		fail("cgjkr.party-died", sn + " honest party " + std::to_string(i) + " did not finish (status " + std::to_string(rr.status[i]) + ")" + (rr.lines[i].empty() ? "" : " " + rr.lines[i].back())); return; }
+	if (!PRE_SUSPECT) for (size_t i : H) if (K1[i].QX != K1[H[0]].QX) {
+		CONCLUSIVE = true;
+		fail("cgjkr.gen.rvss-qual-disagree", sn + " (decided in a synchronous sharing phase) P" + std::to_string(H[0]) + ": " + qualstr(K1[H[0]].QX) + " P" + std::to_string(i) + ": " + qualstr(K1[i].QX));
+		return; }
 	Z s1, s2;
 	std::vector<size_t> QX = K1[H[0]].QX;                        // QUAL of the Joint-RVSS that produced the shares
 	if (!key_oracle("cgjkr.gen", sn, G, t, H, K1, s1, &QX, "qual-erased-share-kept")) return;
+	if (S.expect_dq >= 0 && std::find(QX.begin(), QX.end(), (size_t)S.expect_dq) != QX.end()) fail("cgjkr.gen.scripted-dealer-not-disqualified", sn + " P" + std::to_string(S.expect_dq) + " got more than t justified complaints but is in the Joint-RVSS QUAL " + qualstr(QX));
+	if (S.expect_kept >= 0 && std::find(QX.begin(), QX.end(), (size_t)S.expect_kept) == QX.end()) fail("cgjkr.gen.scripted-dealer-disqualified", sn + " P" + std::to_string(S.expect_kept) + " got at most t complaints and answered them correctly but is not in the Joint-RVSS QUAL " + qualstr(QX));
 	std::vector<size_t> QU = K1[H[0]].QUAL; for (size_t j : K2[H[0]].QUAL) if (std::find(QU.begin(), QU.end(), j) == QU.end()) QU.push_back(j);
 	std::sort(QU.begin(), QU.end());
 	if (!key_oracle("cgjkr.refresh", sn + " after Refresh", G, t, H, K2, s2, &QU, "qual-overwritten")) return;
@@ -468,17 +504,17 @@ static void run_scenario(const Scn &S, time_t T) {
 // executed in a worker process: attempt, on failure retry with longer time-outs; print what reproduces
 static void scenario_worker(const Scn &S, time_t T) {
 	double t0 = now_s();
-	OUT.clear(); NFAIL = 0; SUSPECT = false; run_scenario(S, T);
+	OUT.clear(); NFAIL = 0; SUSPECT = false; PRE_SUSPECT = false; CONCLUSIVE = false; run_scenario(S, T);
 	bool s1 = SUSPECT;
 	// a failure is reported at once only if the run was synchronous beyond doubt: no suspicious reception failure, and no party that may
 	// legitimately be silent (with silent parties the honest ones sit in time-outs and the broadcast quorums are tight)
-	bool silent_possible = S.kind != "vss" && (!S.faulty.empty() || !S.faulty2.empty());
-	if (NFAIL > 0 && (SUSPECT || silent_possible) && S.kind != "pure") {        // repeat with long time-outs
+	bool silent_possible = S.may_silent && (!S.faulty.empty() || !S.faulty2.empty());
+	if (NFAIL > 0 && !CONCLUSIVE && (SUSPECT || silent_possible) && S.kind != "pure") {        // repeat with long time-outs
 		std::string first = OUT; int nf1 = NFAIL;
-		OUT.clear(); NFAIL = 0; SUSPECT = false; run_scenario(S, T * 4);
+		OUT.clear(); NFAIL = 0; SUSPECT = false; PRE_SUSPECT = false; CONCLUSIVE = false; run_scenario(S, T * 4);
 		if (NFAIL == 0) { std::string keys; std::istringstream is(first); std::string l; while (std::getline(is, l)) if (l.compare(0, 9, "PROPFAIL ") == 0) keys += " " + toks(l)[1];
 			emit("NOTE not-reproduced-with-longer-timeouts " + S.name() + " first-attempt-failures=" + std::to_string(nf1) + keys); }
-		else if (SUSPECT) {                                  // still not synchronous: nothing can be concluded from this run (no alarm)
+		else if (SUSPECT && !CONCLUSIVE) {                   // still not synchronous: nothing can be concluded from this run (no alarm)
 			std::string keys; std::istringstream is(OUT); std::string l, keep; while (std::getline(is, l)) { if (l.compare(0, 9, "PROPFAIL ") == 0) keys += " " + toks(l)[1]; else keep += l + "\n"; }
 			OUT = keep; NFAIL = 0; emit("NOTE inconclusive-run-not-synchronous-even-with-4x-timeouts " + S.name() + keys); }
 	}
@@ -503,7 +539,7 @@ int main(int argc, char **argv) {
 	if (getenv("C15_NMAX")) nmax = atoi(getenv("C15_NMAX"));
 	std::vector<Scn> L; uint64_t id = 0;
 	auto add = [&](const std::string &kind, size_t n, size_t t, const std::set<size_t> &F, const std::set<size_t> &F2, int variant, unsigned qb, unsigned pb) {
-		Scn s; s.kind = kind; s.n = n; s.t = t; s.faulty = F; s.faulty2 = F2; s.variant = variant; s.qbits = qb; s.pbits = pb; s.id = ++id; L.push_back(s); };
+		Scn s; s.kind = kind; s.n = n; s.t = t; s.faulty = F; s.faulty2 = F2; s.variant = variant; s.qbits = qb; s.pbits = pb; s.id = ++id; s.may_silent = (kind != "vss"); L.push_back(s); };
 	SplitMix64 pick(A.seed * 31 + 5);
 	add("pure", 0, 0, {}, {}, A.thorough() ? 1500 : 400, 0, 0);
 	for (size_t n = 2; n <= nmax; n++) for (size_t t = 0; 2 * t < n; t++) {
@@ -532,6 +568,74 @@ int main(int argc, char **argv) {
 			if (only_variant < 0 || only_variant == 0) add("cgjkr", n, t, FS[k], FS[k], 0, qb, pb);
 			if (only_variant < 0 || only_variant == 1) add("cgjkr", n, t, FS[k], {}, 1, qb, pb);
 			if (only_variant < 0 || only_variant == 2) add("cgjkr", n, t, {}, FS[k], 2, qb, pb);
+		}
+	}
+	// ---- harness-scripted deviations (the faulty parties run the library code WITHOUT its switches over a tampering channel):
+	//   W  wrong share (s+1 mod q) to a chosen subset of honest recipients, sizes 1..t+1 (t-1, t, t+1 complainers)
+	//   S  silence towards a chosen subset (nothing is sent to them)
+	//   C  a false complaint is injected into the faulty party's broadcast stream (against the dealer / an honest party)
+	//   D  W by one faulty party + C against it by a second faulty party (t >= 2): c+1 complaints around the threshold
+	{
+		auto addx = [&](const std::string &kind, size_t n, size_t t, const std::set<size_t> &F, const std::map<size_t, Script> &scr, const std::string &xn,
+		                long dealer_only, long complaints_against, long accused, bool silent, size_t pair_base_unused) {
+			(void)pair_base_unused;
+			Scn s; s.kind = kind; s.n = n; s.t = t; s.faulty = F; if (kind == "cgjkr") s.faulty2 = F; s.variant = 0; s.qbits = 48; s.pbits = 96; s.id = ++id;
+			s.scripts = scr; s.xname = xn; s.builtin = false; s.dealer_only = dealer_only;
+			// a deviating party runs the library code, which leaves the protocol once it finds itself disqualified: it may fall silent
+			s.may_silent = silent || kind != "vss"; s.silent_sharing = silent;
+			if (accused >= 0) { if (complaints_against > (long)t) s.expect_dq = accused; else s.expect_kept = accused; }
+			L.push_back(s); };
+		std::vector<std::pair<size_t, size_t> > NT;
+		// only configurations with 3t < n: with 3t >= n the broadcast needs the readies of all n parties and a complaint round
+		// desynchronises the parties (such runs end "inconclusive")
+		NT.push_back({4, 1}); NT.push_back({7, 2});
+		if (A.thorough()) { NT.push_back({5, 1}); NT.push_back({6, 1}); }
+		for (auto nt : NT) {
+			size_t n = nt.first, t = nt.second; if (getenv("C15_NMAX") && n > nmax) continue;
+			size_t f = (size_t)((A.seed + n) % n);                                   // the deviating dealer
+			std::vector<size_t> hon; for (size_t i = 0; i < n; i++) if (i != f) hon.push_back(i);
+			bool all_subsets = (n <= 4) || (A.thorough() && n <= 6);
+			size_t per_size = A.thorough() ? 4 : 1;
+			for (size_t c = 1; c <= t + 1 && c <= hon.size(); c++) {
+				std::vector<std::set<size_t> > subs;
+				subsets(hon, c, [&](const std::vector<size_t> &sub) { subs.push_back(std::set<size_t>(sub.begin(), sub.end())); return true; });
+				if (!all_subsets) { std::vector<std::set<size_t> > some; for (size_t r = 0; r < per_size && r < subs.size(); r++) some.push_back(subs[(pick.below(subs.size()) + r) % subs.size()]); subs = some; }
+				for (size_t k = 0; k < subs.size(); k++) {
+					Script w; w.wrong = subs[k]; std::map<size_t, Script> m; m[f] = w; std::string tag = "-P" + std::to_string(f) + "-to" + setstr(subs[k]);
+					addx("vss", n, t, {f}, m, "W" + tag, (long)f, (long)c, (long)f, false, 0);
+					addx("dkg", n, t, {f}, m, "W" + tag, -1, (long)c, (long)f, false, 0);
+					if (k == 0) {
+						// silence towards a subset delays the victims by their reception time-outs while the other parties' time-outs for the
+						// victims' broadcasts run out: every such run leaves the synchrony assumption ("inconclusive"); only on request
+						if (getenv("C15_SILENCE")) {
+							Script d; d.drop = subs[k]; std::map<size_t, Script> md; md[f] = d;
+							addx("vss", n, t, {f}, md, "S" + tag, (long)f, (long)c, (long)f, true, 0);
+							addx("dkg", n, t, {f}, md, "S" + tag, -1, (long)c, (long)f, true, 0);
+						}
+						if (n == 4 && (A.thorough() || c == t + 1)) addx("cgjkr", n, t, {f}, m, "W" + tag, -1, (long)c, (long)f, true, 0);
+					}
+					// D: a second faulty party adds a false complaint against f
+					if (t >= 2 && k == 0 && c <= t) {
+						size_t f2 = hon[0]; if (subs[k].count(f2)) { bool found = false; for (size_t x : hon) if (!subs[k].count(x)) { f2 = x; found = true; break; } if (!found) continue; }
+						Script inj; inj.inject_value = (long)f; std::map<size_t, Script> m2 = m, m3 = m;
+						inj.inject_on_recv = 2; m2[f2] = inj;                    // vss receiver: after it got its pair from the dealer
+						addx("vss", n, t, {f, f2}, m2, "D" + tag + "+P" + std::to_string(f2), (long)f, (long)c + 1, (long)f, false, 0);
+						inj.inject_on_recv = -1; inj.inject_on_send = 0; m3[f2] = inj;   // dkg: right before it sends its own shares
+						// (only while the total stays <= t: the injecting party's own library code does not count its injected complaint, so with
+						//  t+1 it alone would wait a full time-out for the disqualified dealer and split the honest parties by a timing race)
+						if (c + 1 <= t) addx("dkg", n, t, {f, f2}, m3, "D" + tag + "+P" + std::to_string(f2), -1, (long)c + 1, (long)f, false, 0);
+					}
+				}
+			}
+			// C: false complaints only (<= t of them): an honest dealer / honest party must be kept by everybody
+			{
+				std::set<size_t> F; std::map<size_t, Script> mv, md; size_t victim = hon[0];
+				for (size_t k = 0; k < t && k + 1 < hon.size(); k++) { size_t x = hon[hon.size() - 1 - k]; F.insert(x);
+					Script a; a.inject_value = (long)victim; a.inject_on_recv = 2; mv[x] = a;
+					Script b; b.inject_value = (long)victim; b.inject_on_send = 0; md[x] = b; }
+				addx("vss", n, t, F, mv, "C-against-P" + std::to_string(victim), (long)victim, (long)F.size(), (long)victim, false, 0);
+				addx("dkg", n, t, F, md, "C-against-P" + std::to_string(victim), -1, (long)F.size(), (long)victim, false, 0);
+			}
 		}
 	}
 	if (!A.only.empty()) { std::vector<Scn> L2; for (auto &s : L) if (s.name().find(A.only) != std::string::npos) L2.push_back(s); L = L2; }
